@@ -1,4 +1,8 @@
-import RV.Proofs.GravityLaws
+import RV.Proofs.GravityComp
+import RV.Proofs.GravityTree
+import RV.Proofs.GravityEnc
+import RV.Proofs.GravityTrace
+import RV.Proofs.GravityJacobi
 /-
   C02 — every force routine computes the specified pairwise Newtonian sum.
 
@@ -96,6 +100,312 @@ theorem c02_basic_torque (pref : K → Nat → Nat → K) (cfg : Cfg K) (N : Nat
     (by simp [V3.cross_add, smul_add]) pref cfg m x 0 hall
   intro i j hi hj
   exact pairC_torque pref _ m x hi hj
+
+/-! ### COMPENSATED -/
+
+/-- COMPENSATED (gravity.c:248-488): the Kahan-compensated loops (upper-triangle nest with
+    `continue` tests, test-particle nest) compute, in exact arithmetic, the sum over the same
+    declarative source set as BASIC without ghost boxes. -/
+theorem c02_compensated_sources (kern : K → K) (cfg : Cfg K) (N : Nat) (m : Nat → K)
+    (x : Nat → V3 K) (hNa : cfg.nActive ≤ N) (hig : cfg.ignore ≤ 2) (k : Nat) (hk : k < N) :
+    (accComp kern cfg (mkPs N m x))[k]?
+      = some (∑ j ∈ Finset.range N, if Src cfg.nActive cfg.tpType cfg.ignore k j
+          then force (fun s _ _ => kern s) (cfg.soft * cfg.soft) m x 0 k j else 0) := by
+  rw [accComp_get kern cfg m x hNa hk, compTot_declarative kern cfg m x hNa hig hk]
+
+/-- `accCompensated = accBasic` in exact arithmetic: every compensation term vanishes
+    identically and both loop nests reach the same pairs. -/
+theorem c02_compensated_eq_basic (kern : K → K) (cfg : Cfg K) (N : Nat) (m : Nat → K)
+    (x : Nat → V3 K) (hNa : cfg.nActive ≤ N) (hig : cfg.ignore ≤ 2) (k : Nat) (hk : k < N) :
+    (accComp kern cfg (mkPs N m x))[k]?
+      = (accBasic (fun s _ _ => kern s) cfg [0] (mkPs N m x))[k]? := by
+  rw [c02_compensated_sources kern cfg N m x hNa hig k hk,
+    accBasic_declarative _ (fun _ _ _ => rfl) cfg [0] (by intro G; simp) m x hNa hig hk]
+  simp
+
+/-! ### JACOBI -/
+
+/-- REB_GRAVITY_JACOBI (gravity.c:81-138), ∀ N: whatever the accelerations held before, slot `k`
+    ends up with (a) the direct Newtonian sum over all `j ≠ k` except the pair {0,1} — the
+    declarative source set of `gravity_ignore_terms = 1` with every particle active, no softening,
+    no ghost boxes — plus (b) the Jacobi terms `G·dQ/|Q_j|³·Q_j` of the outer iterations `j > 1`,
+    `j ≥ k`, where `Q_j = x_j − R_j/M_j`, `R_j = Σ_{i<j} m_i x_i`, `M_j = Σ_{i<j} m_i`
+    (`dQ = −m_j` for `k < j`, `M_j` for `k = j`). -/
+theorem c02_jacobi_sources (kern : K → K) (G : K) (sqrt : K → K) (N : Nat) (m : Nat → K)
+    (x : Nat → V3 K) (init : Acc K) (hinit : init.size = N) (k : Nat) (hk : k < N) :
+    (accJacobi kern G sqrt (mkPs N m x) init)[k]?
+      = some ((∑ j ∈ Finset.range N, if Src N false 1 k j
+                then force (fun s _ _ => kern s) 0 m x 0 k j else 0)
+          + (∑ j ∈ Finset.range N, if 1 < j ∧ k ≤ j
+                then jacTerm G sqrt m x (Rn m x j) (Mn m j) j k else 0)) :=
+  accJacobi_get kern G sqrt m x init hinit hk
+
+/-- the Jacobi terms carry no net momentum: `Σ_k m_k · (Jacobi terms of k) = 0`
+    (because `M_j` is exactly the mass of the particles below `j`) -/
+theorem c02_jacobi_terms_balanced (G : K) (sqrt : K → K) (N : Nat) (m : Nat → K) (x : Nat → V3 K) :
+    ∑ k ∈ Finset.range N, m k • (∑ j ∈ Finset.range N, if 1 < j ∧ k ≤ j
+        then jacTerm G sqrt m x (Rn m x j) (Mn m j) j k else 0) = 0 := by
+  simp only [Finset.smul_sum]
+  rw [Finset.sum_comm]
+  apply Finset.sum_eq_zero
+  intro j hj
+  have hj' := Finset.mem_range.mp hj
+  by_cases h1 : 1 < j
+  · simp only [h1, true_and, smul_ite, smul_zero]
+    rw [← Finset.sum_filter]
+    have hf : (Finset.range N).filter (fun k => k ≤ j) = Finset.range (j + 1) := by
+      ext k; simp; omega
+    rw [hf, Finset.sum_range_succ]
+    have e : ∀ k ∈ Finset.range j, m k • jacTerm G sqrt m x (Rn m x j) (Mn m j) j k
+        = m k • jacTerm G sqrt m x (Rn m x j) (Mn m j) j 0 := by
+      intro k hk
+      have hk' := Finset.mem_range.mp hk
+      simp only [jacTerm, hk', show 0 < j by omega, if_true]
+    rw [Finset.sum_congr rfl e, ← Finset.sum_smul]
+    simp only [jacTerm, show 0 < j by omega, if_true, lt_irrefl, if_false]
+    rw [show (∑ i ∈ Finset.range j, m i) = Mn m j from rfl, smul_smul, smul_smul, ← add_smul]
+    convert zero_smul K _ using 2
+    ring
+  · simp [h1]
+
+/-! ### MERCURIUS / TRACE -/
+
+/-- MERCURIUS mode 0 is the BASIC loop nest with `gravity_ignore_terms = 2` and no ghost box -/
+theorem c02_mercurius_mode0_is_basic (pref : K → Nat → Nat → K) (cfg : Cfg K) (ps : Array (Body K)) :
+    accMerc0 pref cfg ps = accBasic pref { cfg with ignore := 2 } [V3.zero] ps := rfl
+
+/-- MERCURIUS mode 0 (gravity.c:523-616): planet-planet and planet-test-particle pairs only
+    (no pair contains particle 0), each weighted by the changeover value carried by `pref`
+    (any weight symmetric in the pair, e.g. `G·L(r, max(dcrit_i,dcrit_j))/r³`). -/
+theorem c02_mercurius_mode0_sources (pref : K → Nat → Nat → K)
+    (hsym : ∀ s i j, pref s i j = pref s j i) (cfg : Cfg K) (N : Nat) (m : Nat → K)
+    (x : Nat → V3 K) (hNa : cfg.nActive ≤ N) (k : Nat) (hk : k < N) :
+    (accMerc0 pref cfg (mkPs N m x))[k]?
+      = some (∑ j ∈ Finset.range N, if Src cfg.nActive cfg.tpType 2 k j
+          then force pref (cfg.soft * cfg.soft) m x 0 k j else 0) := by
+  rw [c02_mercurius_mode0_is_basic]
+  have := accBasic_declarative pref hsym { cfg with ignore := 2 } [0] (by intro G; simp) m x
+    (by simpa using hNa) (by simp) hk
+  simpa using this
+
+/-- the two MERCURIUS prefactors of one pair add up to the full Newtonian prefactor, for
+    every changeover function: only `L + (1 - L) = 1` is used. -/
+theorem c02_mercurius_pair_split (sqrt : K → K) (gt : K → K → Bool) (L : K → K → K) (G : K)
+    (dcrit : Array K) (s : K) (i j : Nat) (hi : i < dcrit.size) (hj : j < dcrit.size) :
+    prefMerc0 sqrt gt L G dcrit s i j + prefMerc1 sqrt gt L G dcrit s i j = kernCube sqrt G s := by
+  simp only [prefMerc0, prefMerc1, kernCube, Array.getElem?_eq_getElem hi, Array.getElem?_eq_getElem hj,
+    sc_hmul, sc_hdiv, sc_hsub, sc_one]
+  rw [← add_div]
+  congr 1
+  ring
+
+/-- the encounter routines — MERCURIUS mode 1 (gravity.c:617-748) and TRACE Kepler mode
+    (gravity.c:848-983): for every particle `map[i0]` of the encounter set (`1 ≤ i0 < encounter_N`,
+    any injective `encounter_map`), the result is its star term plus the BASIC{ignore=2} sum of the
+    *sub-system re-indexed by the map* (`encounter_N` bodies, `encounter_N_active` active), with the
+    routine's pair weight (`prefEnc`: `G(1-L)/r³`, or `G/r³` masked by `current_Ks`).  Particles
+    outside the encounter set contribute nothing and receive nothing (`c02_encounter_untouched`). -/
+theorem c02_encounter_sources (pref : K → Nat → Nat → K) (starPref : K → K) (skip : Nat → Nat → Bool)
+    (soft : K) (tp : Bool) (N L : Nat) (m : Nat → K) (x : Nat → V3 K) (mp : Nat → Nat)
+    (encN encNa : Nat) (init : Acc K) (hinit : init.size = N) (hL : encN ≤ L) (hNa : encNa ≤ encN)
+    (hmp : ∀ i, i < encN → mp i < N)
+    (hinj : ∀ i j, i < encN → j < encN → mp i = mp j → i = j)
+    (hsym : ∀ s i j, prefEnc pref skip mp s i j = prefEnc pref skip mp s j i)
+    (i0 : Nat) (h1 : 1 ≤ i0) (h2 : i0 < encN) :
+    (accEnc pref starPref skip soft tp (mkPs N m x) (mkMap L mp) encN encNa init)[mp i0]?
+      = some (starV starPref (soft * soft) x (mp i0)
+          + ∑ j ∈ Finset.range encN, if Src encNa tp 2 i0 j
+              then force (prefEnc pref skip mp) (soft * soft) (fun t => m (mp t)) (fun t => x (mp t)) 0 i0 j
+              else 0) := by
+  rw [accEnc_eq, additive_encLoops pref skip (soft * soft) tp m x mp encN encNa hL hNa hmp,
+    starLoop_get starPref (soft * soft) m x mp _ (by simpa using hinit) encN hL hmp (mp i0)]
+  have hex : ∃ i, 1 ≤ i ∧ i < encN ∧ mp i = mp i0 := ⟨i0, h1, h2, rfl⟩
+  simp only [hex, if_true, Option.map_some]
+  rw [encC_mapped pref skip soft tp m x mp encN encNa hNa hinj h2,
+    boxC_declarative (prefEnc pref skip mp) hsym ⟨encNa, tp, 2, soft⟩ _ _ hNa (by simp) h2]
+
+/-- slots of particles that are not in the encounter set keep their previous content
+    (slot 0, the star, is set to zero) -/
+theorem c02_encounter_untouched (pref : K → Nat → Nat → K) (starPref : K → K) (skip : Nat → Nat → Bool)
+    (soft : K) (tp : Bool) (N L : Nat) (m : Nat → K) (x : Nat → V3 K) (mp : Nat → Nat)
+    (encN encNa : Nat) (init : Acc K) (hinit : init.size = N) (hL : encN ≤ L) (hNa : encNa ≤ encN)
+    (hmp : ∀ i, i < encN → mp i < N) (k : Nat) (hk : ∀ i, 1 ≤ i → i < encN → mp i ≠ k) :
+    (accEnc pref starPref skip soft tp (mkPs N m x) (mkMap L mp) encN encNa init)[k]?
+      = (init.setIfInBounds 0 V3.zero)[k]? := by
+  rw [accEnc_eq, additive_encLoops pref skip (soft * soft) tp m x mp encN encNa hL hNa hmp,
+    starLoop_get starPref (soft * soft) m x mp _ (by simpa using hinit) encN hL hmp k]
+  have hex : ¬ ∃ i, 1 ≤ i ∧ i < encN ∧ mp i = k := by
+    rintro ⟨i, a, b, c⟩; exact hk i a b c
+  simp only [hex, if_false]
+  have hz : encC pref skip (soft * soft) tp m x mp encN encNa k = 0 := by
+    unfold encC
+    have z : ∀ (a b : Nat) (d : Nat → Nat) (both : Bool), (∀ i, a ≤ i → 2 ≤ i) →
+        (∑ i ∈ Finset.Ico a b, ∑ j ∈ Finset.Ico 1 (d i),
+          if skip (mp i) (mp j) = true then 0 else pairC pref (soft * soft) m x 0 both (mp i) (mp j) k)
+        = ∑ i ∈ Finset.Ico a b, ∑ j ∈ Finset.Ico 1 (d i),
+          if (i < encN ∧ j < encN) then 0 else
+            (if skip (mp i) (mp j) = true then 0 else pairC pref (soft * soft) m x 0 both (mp i) (mp j) k) := by
+      intro a b d both ha
+      apply Finset.sum_congr rfl; intro i hi
+      apply Finset.sum_congr rfl; intro j hj
+      have hi' := Finset.mem_Ico.mp hi
+      have hj' := Finset.mem_Ico.mp hj
+      by_cases hb : i < encN ∧ j < encN
+      · have := pairC_unmapped pref (soft * soft) m x mp both (hk i (by have := ha i hi'.1; omega) hb.1) (hk j hj'.1 hb.2)
+        simp [hb, this]
+      · simp [hb]
+    rw [z 2 encNa (fun i => i) true (fun i h => h), z (max encNa 2) encN (fun _ => encNa) tp (fun i h => by omega)]
+    have e1 : ∀ i ∈ Finset.Ico 2 encNa, ∀ j ∈ Finset.Ico 1 i, (i < encN ∧ j < encN) := by
+      intro i hi j hj
+      have := Finset.mem_Ico.mp hi; have := Finset.mem_Ico.mp hj; omega
+    have e2 : ∀ i ∈ Finset.Ico (max encNa 2) encN, ∀ j ∈ Finset.Ico 1 encNa, (i < encN ∧ j < encN) := by
+      intro i hi j hj
+      have := Finset.mem_Ico.mp hi; have := Finset.mem_Ico.mp hj; omega
+    rw [Finset.sum_eq_zero (fun i hi => Finset.sum_eq_zero (fun j hj => by simp [e1 i hi j hj])),
+      Finset.sum_eq_zero (fun i hi => Finset.sum_eq_zero (fun j hj => by simp [e2 i hi j hj])), add_zero]
+  rw [hz]
+  cases (init.setIfInBounds 0 V3.zero)[k]? <;> simp
+
+/-- MERCURIUS splitting: when every particle is in the encounter set (identity map,
+    `encounter_N = N`, `encounter_N_active = N_active`) the WHFast part (mode 0) and the IAS15
+    part (mode 1) add up, for every planet `k ≥ 1`, to the star's Kepler term plus the full
+    planet-planet force — the BASIC{ignore=2} sum with the plain kernel `G/r³` — for every
+    changeover function `L`, every `dcrit`, every `N`, `N_active`, testparticle_type.
+    (`hgt`: `MAX(dcrit[i],dcrit[j])` does not depend on the order of the pair.) -/
+theorem c02_mercurius_split_full (sqrt : K → K) (gt : K → K → Bool) (Lf : K → K → K) (G : K)
+    (dcrit : Array K) (starPref : K → K) (cfg : Cfg K) (N : Nat) (m : Nat → K) (x : Nat → V3 K)
+    (init : Acc K) (hinit : init.size = N) (hd : dcrit.size = N) (hNa : cfg.nActive ≤ N)
+    (hgt : ∀ a b, cmax gt a b = cmax gt b a)
+    (k : Nat) (hk1 : 1 ≤ k) (hk : k < N) (a0 a1 ab : V3 K)
+    (h0 : (accMerc0 (prefMerc0 sqrt gt Lf G dcrit) cfg (mkPs N m x))[k]? = some a0)
+    (h1 : (accEnc (prefMerc1 sqrt gt Lf G dcrit) starPref (fun _ _ => false) cfg.soft cfg.tpType
+            (mkPs N m x) (mkMap N id) N cfg.nActive init)[k]? = some a1)
+    (hb : (accBasic (fun s _ _ => kernCube sqrt G s) { cfg with ignore := 2 } [0] (mkPs N m x))[k]? = some ab) :
+    a0 + a1 = starV starPref (cfg.soft * cfg.soft) x k + ab := by
+  have sym0 : ∀ s i j, prefMerc0 sqrt gt Lf G dcrit s i j = prefMerc0 sqrt gt Lf G dcrit s j i := by
+    intro s i j
+    unfold prefMerc0
+    cases dcrit[i]? <;> cases dcrit[j]? <;> simp [hgt]
+  have sym1 : ∀ s i j, prefMerc1 sqrt gt Lf G dcrit s i j = prefMerc1 sqrt gt Lf G dcrit s j i := by
+    intro s i j
+    unfold prefMerc1
+    cases dcrit[i]? <;> cases dcrit[j]? <;> simp [hgt]
+  have e1 : prefEnc (prefMerc1 sqrt gt Lf G dcrit) (fun _ _ => false) id = prefMerc1 sqrt gt Lf G dcrit := by
+    funext s i j; simp [prefEnc]
+  rw [c02_mercurius_mode0_sources _ sym0 cfg N m x hNa k hk] at h0
+  have h1' := c02_encounter_sources (prefMerc1 sqrt gt Lf G dcrit) starPref (fun _ _ => false) cfg.soft cfg.tpType
+    N N m x id N cfg.nActive init hinit (le_refl N) hNa (fun i hi => hi) (fun i j _ _ h => h)
+    (by rw [e1]; exact sym1) k hk1 hk
+  simp only [id, e1] at h1'
+  rw [h1'] at h1
+  have hb' := accBasic_declarative (fun s _ _ => kernCube sqrt G s) (fun _ _ _ => rfl) { cfg with ignore := 2 } [0]
+    (by intro G; simp) m x (by simpa using hNa) (by simp) hk
+  rw [hb'] at hb
+  have := Option.some.inj h0; subst this
+  have := Option.some.inj h1; subst this
+  have := Option.some.inj hb; subst this
+  simp only [List.map_cons, List.map_nil, List.sum_cons, List.sum_nil, add_zero]
+  rw [add_comm (∑ j ∈ Finset.range N, _) (_ + _), add_assoc, ← Finset.sum_add_distrib]
+  congr 1
+  apply Finset.sum_congr rfl
+  intro j hj
+  have hj' := Finset.mem_range.mp hj
+  by_cases hs : Src cfg.nActive cfg.tpType 2 k j
+  · simp only [hs, if_true, force, roleI]
+    have hsplit := c02_mercurius_pair_split sqrt gt Lf G dcrit (s2 x (cfg.soft * cfg.soft) 0 k j) k j
+      (by omega) (by omega)
+    rw [← add_smul, ← hsplit]
+    congr 1
+    ring
+  · simp [hs]
+
+/-- TRACE interaction mode (gravity.c:758-847): the BASIC{ignore=2} source set, minus the pairs
+    flagged in `current_Ks` (read at `[min*N+max]`, as the loops do): flagged pairs have weight 0 -/
+theorem c02_trace_interaction_sources (pref : K → Nat → Nat → K)
+    (hsym : ∀ s i j, pref s i j = pref s j i) (ks : Nat → Nat → Bool) (cfg : Cfg K) (N : Nat)
+    (m : Nat → K) (x : Nat → V3 K) (hNa : cfg.nActive ≤ N) (k : Nat) (hk : k < N) :
+    (accTrace0 pref ks cfg (mkPs N m x))[k]?
+      = some (∑ j ∈ Finset.range N, if Src cfg.nActive cfg.tpType 2 k j
+          then force (prefMaskS pref ks) (cfg.soft * cfg.soft) m x 0 k j else 0) := by
+  rw [accTrace0_get pref ks cfg m x hNa hk,
+    boxC_congr _ _ (prefMask_agree pref ks),
+    boxC_declarative _ (prefMaskS_symm pref hsym ks) ⟨cfg.nActive, cfg.tpType, 2, cfg.soft⟩ m x hNa (by simp) hk]
+
+/-- TRACE splitting: with every particle in the encounter set (identity map) the interaction
+    mode and the Kepler mode add up, for every planet `k ≥ 1`, to the star's Kepler term plus the
+    full planet-planet force (BASIC{ignore=2} with the plain kernel) — for every `current_Ks`. -/
+theorem c02_trace_split_full (kern : K → K) (ks : Nat → Nat → Bool) (starPref : K → K)
+    (cfg : Cfg K) (N : Nat) (m : Nat → K) (x : Nat → V3 K) (init : Acc K) (hinit : init.size = N)
+    (hNa : cfg.nActive ≤ N) (k : Nat) (hk1 : 1 ≤ k) (hk : k < N) (a0 a1 ab : V3 K)
+    (h0 : (accTrace0 (fun s _ _ => kern s) ks cfg (mkPs N m x))[k]? = some a0)
+    (h1 : (accEnc (fun s _ _ => kern s) starPref (fun mi mj => !(ks mj mi)) cfg.soft cfg.tpType
+            (mkPs N m x) (mkMap N id) N cfg.nActive init)[k]? = some a1)
+    (hb : (accBasic (fun s _ _ => kern s) { cfg with ignore := 2 } [0] (mkPs N m x))[k]? = some ab) :
+    a0 + a1 = starV starPref (cfg.soft * cfg.soft) x k + ab := by
+  rw [c02_trace_interaction_sources _ (fun _ _ _ => rfl) ks cfg N m x hNa k hk] at h0
+  have h1' := accEnc_get_boxC (fun s _ _ => kern s) starPref (fun mi mj => !(ks mj mi)) cfg.soft cfg.tpType
+    m x id N cfg.nActive init hinit (le_refl N) hNa (fun i hi => hi) (fun i j _ _ h => h) hk1 hk
+  simp only [id] at h1'
+  rw [boxC_congr _ _ (prefEnc_keep_agree (fun s _ _ => kern s) ks),
+    boxC_declarative _ (prefKeepS_symm _ (fun _ _ _ => rfl) ks) ⟨cfg.nActive, cfg.tpType, 2, cfg.soft⟩ m x hNa (by simp) hk] at h1'
+  rw [h1'] at h1
+  have hb' := accBasic_declarative (fun s _ _ => kern s) (fun _ _ _ => rfl) { cfg with ignore := 2 } [0]
+    (by intro G; simp) m x (by simpa using hNa) (by simp) hk
+  rw [hb'] at hb
+  have := Option.some.inj h0; subst this
+  have := Option.some.inj h1; subst this
+  have := Option.some.inj hb; subst this
+  simp only [List.map_cons, List.map_nil, List.sum_cons, List.sum_nil, add_zero]
+  rw [add_comm (∑ j ∈ Finset.range N, _) (_ + _), add_assoc, ← Finset.sum_add_distrib]
+  congr 1
+  apply Finset.sum_congr rfl
+  intro j hj
+  by_cases hs : Src cfg.nActive cfg.tpType 2 k j
+  · simp only [hs, if_true, force, roleI, prefKeepS, prefMaskS]
+    by_cases hks : ks (min k j) (max k j) = true <;> simp [hks]
+  · simp [hs]
+
+/-- the three polynomial changeover functions of integrator_mercurius.c join the clamps
+    continuously: value 0 at `y = 0` and 1 at `y = 1` -/
+theorem c02_changeover_endpoints :
+    polyMercury (0 : K) = 0 ∧ polyMercury (1 : K) = 1 ∧ polyC4 (0 : K) = 0 ∧ polyC4 (1 : K) = 1 ∧
+    polyC5 (0 : K) = 0 ∧ polyC5 (1 : K) = 1 := by
+  refine ⟨?_, ?_, ?_, ?_, ?_, ?_⟩ <;>
+    simp only [polyMercury, polyC4, polyC5, sc_hmul, sc_hadd, sc_hsub, sc_hneg, sc_ofNat] <;> norm_num
+
+/-! ### TREE at opening angle 0 -/
+
+/-- the Barnes-Hut walk (gravity.c:1444-1487), when every cell it meets passes the opening test,
+    visits every leaf exactly once: it adds the sum of the leaf terms over all leaves below the
+    roots, skipping only the particle's own local leaf — for every tree shape. -/
+theorem c02_tree_walk_visits_every_leaf (starPref : K → K) (gt : K → K → Bool) (soft2 theta2 : K)
+    (pt : Nat) (gb : V3 K) (roots : List (Cell K)) (a : V3 K)
+    (h : opensAllL gt theta2 gb roots = true) :
+    walkList starPref gt soft2 theta2 pt gb roots a
+      = a + ((leavesL roots).map (leafTerm starPref soft2 pt gb)).sum :=
+  walkList_open starPref gt soft2 theta2 pt gb roots a h
+
+/-- with `opening_angle2 = 0` over an ordered field every cell of non-zero width is opened -/
+theorem c02_tree_theta0_opens {F : Type} [Field F] [LinearOrder F] [IsStrictOrderedRing F]
+    (gb : V3 F) (roots : List (Cell F)) (h : widthsNZL roots) :
+    opensAllL (fun a b => decide (a > b)) 0 gb roots = true :=
+  opensAllL_theta0 gb roots h
+
+/-- TREE case of `reb_calculate_acceleration` in the limit of zero opening angle: if the leaves of
+    the tree are exactly the particles (each once; established by C15's tree invariants and checked
+    on the real tree by the search), the acceleration of every particle is the direct sum over all
+    other particles and all ghost boxes — the BASIC declarative sum with every particle active. -/
+theorem c02_tree_theta0_direct (starPref : K → K) (gt : K → K → Bool) (soft theta2 : K)
+    (shifted : Bool) (bs : V3 K) (nx ny nz : Nat) (roots : List (Cell K)) (N : Nat)
+    (m : Nat → K) (x : Nat → V3 K)
+    (hopen : ∀ gb ∈ ghostList shifted bs nx ny nz, ∀ i, i < N → opensAllL gt theta2 (gb + x i) roots = true)
+    (hleaves : (leavesL roots).Perm ((List.range N).map fun j => (⟨j, false, m j, x j⟩ : Leaf K)))
+    (k : Nat) (hk : k < N) :
+    (accTree starPref gt soft theta2 (ghostList shifted bs nx ny nz) roots (mkPs N m x))[k]?
+      = (accBasic (fun s _ _ => -starPref s) ⟨N, false, 0, soft⟩ (ghostList shifted bs nx ny nz) (mkPs N m x))[k]? := by
+  rw [accTree_direct starPref gt soft theta2 _ roots m x hopen hleaves hk,
+    accBasic_declarative _ (fun _ _ _ => rfl) ⟨N, false, 0, soft⟩ _ (ghostList_symm shifted bs nx ny nz) m x
+      (le_refl N) (by simp) hk]
 
 /-! ### non-vacuity: a concrete 4-body configuration over ℚ with one test particle, a
     zero-mass active body, gravity_ignore_terms = 1 and one ghost ring meets every hypothesis;
